@@ -35,8 +35,14 @@ static const char *context_name_from(const char *specification_name) {
 static const char *test_name_from(const char *specification_name) {
     const char *start = skip_cgreen_spec_marker(specification_name);
     start = skip_over_separator(start);
-    const char *end = skip_to_separator(start);
-    return string_copy_of(start, end? end : &start[strlen(start)]);
+    /* The name is everything up to the separator that ends the symbol, so
+       that a name which itself contains the separator is kept whole */
+    size_t length = strlen(start);
+    size_t separator_length = strlen(CGREEN_SEPARATOR);
+    const char *end = &start[length];
+    if (length >= separator_length && strcmp(end - separator_length, CGREEN_SEPARATOR) == 0)
+        end -= separator_length;
+    return string_copy_of(start, end);
 }
 
 TestItem *create_test_item_from(const char *specification_name) {
